@@ -341,7 +341,7 @@ def run(F, R, tier):
     import importlib
     from .lib import core as _core
     known, _ = _core.load_known()
-    for lp in ("C05", "C06", "C09"):
+    for lp in ("C04", "C05", "C06", "C09"):
         try:
             mod = importlib.import_module("rules.%s" % lp.lower())
             R2 = _core.Report(lp)
